@@ -32,6 +32,7 @@ type irOpts struct {
 	NestedUnions bool // a union somewhere below a union branch
 	AliasObjects bool // objects whose type is a reference
 	UniqueNames  bool // object names unique across packages
+	IntKeyMaps   bool // some maps are keyed by integers
 	inUnion      int
 }
 
@@ -469,6 +470,10 @@ func (g *irGen) typ(depth int, po plannedObj, inField bool) ast.Type {
 		g.unguarded = 0
 		mt := ast.NewMap(ast.String(), g.typ(depth-1, po, false))
 		g.unguarded = saved
+		if g.o.IntKeyMaps && g.rng.Chance(0.3) {
+			mt.Map.IndexType = ast.NewScalar(ast.KindInt64)
+			g.tag("map:int-keys")
+		}
 		return mt
 	case r < 81:
 		if g.o.AnonStructs {
